@@ -15,6 +15,7 @@ import (
 
 	"github.com/datastax/cql-proxy/proxy"
 	"github.com/datastax/cql-proxy/proxycore"
+	"github.com/datastax/go-cassandra-native-protocol/frame"
 	"github.com/datastax/go-cassandra-native-protocol/message"
 	"github.com/datastax/go-cassandra-native-protocol/primitive"
 
@@ -723,10 +724,85 @@ func runC16(c *Ctx) {
 			c16Outage(c, i)
 		}
 	}
+	for i := 0; i < c.Pick(2, 20); i++ {
+		if j := next(); c.Mine(j) {
+			c16RefreshWithEvent(c, i, []string{"local-query", "peers-query"}[i%2])
+		}
+	}
 	for i := 0; i < c.Pick(1, 6); i++ {
 		if j := next(); c.Mine(j) {
 			c16Readiness(c, i)
 		}
 	}
 	var _ = rawcql.Plain
+}
+
+// c16RefreshWithEvent: a schema-change event reaches the control connection while the proxy is running the refresh
+// queries that a topology change triggered. The refresh must still complete on that connection (system.peers re-queried,
+// the new node connected) instead of the control connection being given up.
+func c16RefreshWithEvent(c *Ctx, idx int, during string) {
+	r := c.R
+	scenario := map[string]interface{}{"kind": "refresh-with-event", "idx": idx, "during": during}
+	c.Step("c16 refresh-with-event idx=%d during=%s", idx, during)
+	bed, err := px.NewBed(px.BedConfig{Hosts: 3, NumConns: 1, Keyspaces: []string{"ks1"}, Unlisted: []int{3}, RefreshWindow: 20 * time.Millisecond,
+		ReconnectBase: time.Millisecond, ReconnectMax: 3 * time.Millisecond, ConnectTimeout: 3 * time.Second})
+	if err != nil {
+		r.Inconc("c16: cannot start bed: " + err.Error())
+		return
+	}
+	defer bed.Close()
+	if !waitFor(func() bool { return len(bed.Cluster.EstablishedControlConns()) == 1 }, 10*time.Second) {
+		r.Inconc("c16 refresh-with-event: no established control connection")
+		return
+	}
+	ctl := bed.Cluster.EstablishedControlConns()[0]
+	var fired int32
+	bed.Cluster.Intercept = func(x *fakecass.Conn, hdr *frame.Header, raw []byte) bool {
+		if x.ID != ctl.ID || hdr.OpCode != primitive.OpCodeQuery {
+			return false
+		}
+		q := strings.ToLower(string(raw))
+		want := "system.local"
+		if during == "peers-query" {
+			want = "system.peers"
+		}
+		if strings.Contains(q, want) && atomic.CompareAndSwapInt32(&fired, 0, 1) {
+			// the event is written on the control connection BEFORE the answer to the refresh query
+			bed.Cluster.Emit(&message.SchemaChangeEvent{ChangeType: primitive.SchemaChangeTypeCreated, Target: primitive.SchemaChangeTargetKeyspace, Keyspace: "ks_during_refresh"})
+		}
+		return false
+	}
+	peersBefore := ctl.PeersAnswered()
+	bed.Cluster.SetListed(3, true)
+	ip := net.ParseIP(bed.Cluster.HostIP(3))
+	bed.Cluster.Emit(&message.TopologyChangeEvent{ChangeType: primitive.TopologyChangeTypeNewNode, Address: &primitive.Inet{Addr: ip, Port: int32(bed.Cluster.Port)}})
+	// logical outcome: either the same control connection answers system.peers again (refresh completed) or it is closed
+	done := waitFor(func() bool { return ctl.PeersAnswered() > peersBefore || ctl.IsClosed() }, 20*time.Second)
+	r.Eval(1)
+	r.Obs("refresh_with_event_cases", 1)
+	r.NonTrivial("refresh-with-event/" + during)
+	if atomic.LoadInt32(&fired) == 0 {
+		r.Inconc("c16 refresh-with-event: the refresh query was never observed")
+		return
+	}
+	if !done {
+		r.Inconc("c16 refresh-with-event: neither refresh completion nor connection close observed before the watchdog")
+		return
+	}
+	if ctl.IsClosed() && ctl.PeersAnswered() == peersBefore {
+		r.Violate(mon.Violation{Signature: "C16/refresh-aborted/schema-event-during-" + during, Detail: fmt.Sprintf("a schema-change event arrived on the control connection while the proxy was running the %s of the topology refresh; the refresh never completed on that connection (the backend answered every query) and the proxy closed the control connection instead: the new node is only picked up after the refresh timeout plus a control-connection fail-over", during), Scenario: scenario})
+		return
+	}
+	// the added host gets its pool
+	ok := waitFor(func() bool {
+		for _, x := range bed.Cluster.Hosts[2].Conns() {
+			if !x.IsRegistered() && x.Ver() != 0 {
+				return true
+			}
+		}
+		return false
+	}, 10*time.Second)
+	if !ok {
+		r.Violate(mon.Violation{Signature: "C16/added-host-never-connected/refresh-with-event", Detail: "the refresh completed but the added host never received a pooled connection", Scenario: scenario})
+	}
 }
